@@ -1,1 +1,1883 @@
-// hook module body (h2_buffers): re-exports / tests that need access to items private to this module's parent.
+// hook module body (h2_buffers): lives at `crate::helpers::buffers::ipa_verif_h2`.
+//
+// C14 - send and receive buffers behave as an ordered byte queue under all interleavings.
+//
+// (a) `CircularBuf` against a `VecDeque<u8>` reference queue: every operation sequence over
+//     {write, take, close} up to a depth bound for a family of (capacity, write, read) triples
+//     (exhaustive) and long generated sequences for larger triples (random), all observers
+//     compared after every step.
+// (b) `OrderingSender` under the deterministic executor: writer tasks + closer + stream reader,
+//     every poll compared with a poll-level reference model (Ready/Pending and the bytes), the
+//     wake-up invariant "a task that can make progress is runnable" after every poll and exact
+//     deadlock detection; all schedules (DFS) for small task sets, generated schedules with
+//     spurious polls beyond.
+// (c) `UnorderedReceiver`: all chunkings of short streams x all request orders (exhaustive) and
+//     generated arrival/request schedules with a feeder task (random), same style of oracle.
+
+use std::{
+    cell::RefCell,
+    collections::VecDeque,
+    fmt::{Debug, Display, Formatter},
+    future::Future,
+    num::NonZeroUsize,
+    pin::Pin,
+    rc::Rc,
+    task::{Context, Poll, Waker},
+};
+
+use generic_array::{ArrayLength, GenericArray};
+use serde_json::{Value, json};
+use typenum::{U1, U2, U3, U4, U5, U6, U7, U8};
+
+use super::circular::CircularBuf;
+use crate::{ff::Serializable, ipa_verif::common::*};
+
+pub const LEVEL: &str = "exploration";
+
+// ------------------------------------------------------------------------------------------
+// message type of a generic byte width; deserialisation fails when the first byte is POISON
+// ------------------------------------------------------------------------------------------
+
+pub const POISON: u8 = 0xEE;
+
+#[derive(Debug)]
+pub struct BadMsg;
+impl Display for BadMsg {
+    fn fmt(&self, f: &mut Formatter<'_>) -> std::fmt::Result {
+        write!(f, "poisoned message")
+    }
+}
+impl std::error::Error for BadMsg {}
+
+pub struct Bytes<N: ArrayLength>(pub GenericArray<u8, N>);
+
+impl<N: ArrayLength> Debug for Bytes<N> {
+    fn fmt(&self, f: &mut Formatter<'_>) -> std::fmt::Result {
+        write!(f, "Bytes{:?}", self.0.as_slice())
+    }
+}
+
+impl<N: ArrayLength> Bytes<N> {
+    pub fn from_slice(b: &[u8]) -> Self {
+        Self(GenericArray::<u8, N>::from_slice(b).clone())
+    }
+}
+
+impl<N: ArrayLength> Serializable for Bytes<N> {
+    type Size = N;
+    type DeserializationError = BadMsg;
+
+    fn serialize(&self, buf: &mut GenericArray<u8, Self::Size>) {
+        buf.copy_from_slice(&self.0);
+    }
+
+    fn deserialize(buf: &GenericArray<u8, Self::Size>) -> Result<Self, Self::DeserializationError> {
+        if buf[0] == POISON { Err(BadMsg) } else { Ok(Self(buf.clone())) }
+    }
+}
+
+macro_rules! by_size {
+    ($s:expr, $f:ident ( $($a:expr),* )) => {
+        match $s {
+            1 => $f::<U1>($($a),*),
+            2 => $f::<U2>($($a),*),
+            3 => $f::<U3>($($a),*),
+            4 => $f::<U4>($($a),*),
+            5 => $f::<U5>($($a),*),
+            6 => $f::<U6>($($a),*),
+            7 => $f::<U7>($($a),*),
+            8 => $f::<U8>($($a),*),
+            other => unreachable!("message size {other}"),
+        }
+    };
+}
+
+// ==========================================================================================
+// (a) CircularBuf vs VecDeque<u8>
+// ==========================================================================================
+
+#[derive(Default)]
+struct CircStats {
+    writes: usize,
+    takes_data: usize,
+    takes_empty: usize,
+    skipped: usize,
+    full_reached: bool,
+    wrapped: bool,
+    closed: bool,
+    closed_remainder: bool,
+    eff: Vec<u8>,
+}
+
+struct CircRun {
+    buf: CircularBuf,
+    model: VecDeque<u8>,
+    closed: bool,
+    cap: usize,
+    w: usize,
+    r: usize,
+    counter: u32,
+    salt: u8,
+    total_written: usize,
+    st: CircStats,
+}
+
+impl CircRun {
+    fn new(cap: usize, w: usize, r: usize, salt: u8) -> Self {
+        Self {
+            buf: CircularBuf::new(cap, w, r),
+            model: VecDeque::new(),
+            closed: false,
+            cap,
+            w,
+            r,
+            counter: 0,
+            salt,
+            total_written: 0,
+            st: CircStats::default(),
+        }
+    }
+
+    fn describe(&self) -> Value {
+        json!({"capacity": self.cap, "write_size": self.w, "read_size": self.r, "ops": ops_str(&self.st.eff)})
+    }
+
+    /// compare every observer with the model
+    fn check(&self, env: &Env, after: &str) -> Result<(), CaseErr> {
+        let len = self.model.len();
+        let fail = |what: &str, msg: String| known_or_violation(env, &format!("circ:{what}"), format!("after {after}: {msg}"), self.describe());
+        if self.buf.len() != len {
+            fail("len", format!("len() = {} but the reference queue holds {len} bytes", self.buf.len()))?;
+        }
+        if self.buf.capacity() != self.cap {
+            fail("capacity", format!("capacity() = {} expected {}", self.buf.capacity(), self.cap))?;
+        }
+        if self.buf.is_closed() != self.closed {
+            fail("is_closed", format!("is_closed() = {} expected {}", self.buf.is_closed(), self.closed))?;
+        }
+        let can_write = !self.closed && self.cap - len >= self.w;
+        if self.buf.can_write() != can_write {
+            fail("can_write", format!("can_write() = {} with {len}/{} bytes, write size {}, closed {}", self.buf.can_write(), self.cap, self.w, self.closed))?;
+        }
+        let can_read = (self.closed && len > 0) || len >= self.r;
+        if self.buf.can_read() != can_read {
+            fail("can_read", format!("can_read() = {} with {len} bytes, read size {}, closed {}", self.buf.can_read(), self.r, self.closed))?;
+        }
+        Ok(())
+    }
+
+    /// op: 0 write, 1 take, 2 close. Operations whose documented precondition does not hold in
+    /// the reference state are skipped (returns false).
+    fn apply(&mut self, env: &Env, op: u8) -> Result<bool, CaseErr> {
+        match op {
+            0 => {
+                if self.closed || self.model.len() + self.w > self.cap {
+                    self.st.skipped += 1;
+                    return Ok(false);
+                }
+                let mut data = Vec::with_capacity(self.w);
+                for k in 0..self.w {
+                    // every byte of the stream is different from its neighbours at distance < 251
+                    let pos = self.total_written + k;
+                    data.push(((pos % 251) as u8).wrapping_mul(37).wrapping_add(self.salt));
+                }
+                self.counter += 1;
+                self.buf.next().write(data.as_slice());
+                self.model.extend(data.iter());
+                self.total_written += self.w;
+                self.st.writes += 1;
+                if self.model.len() + self.w > self.cap {
+                    self.st.full_reached = true;
+                }
+                if self.total_written > self.cap {
+                    self.st.wrapped = true;
+                }
+                self.st.eff.push(0);
+                self.check(env, "write")?;
+            }
+            1 => {
+                let len = self.model.len();
+                let readable = (self.closed && len > 0) || len >= self.r;
+                let got = self.buf.take();
+                self.st.eff.push(1);
+                if !readable {
+                    if !got.is_empty() {
+                        known_or_violation(env, "circ:take-unreadable", format!("take() returned {} bytes while only {len} bytes (< read size {}) are buffered and the buffer is open", got.len(), self.r), self.describe())?;
+                    }
+                    self.st.takes_empty += 1;
+                } else {
+                    let want_len = self.r.min(len);
+                    if !self.closed && got.len() != self.r {
+                        known_or_violation(env, "circ:take-len-open", format!("open buffer: take() returned {} bytes, read size is {}", got.len(), self.r), self.describe())?;
+                    }
+                    if self.closed && (got.is_empty() || got.len() > self.r || got.len() % self.w != 0 || got.len() > len) {
+                        known_or_violation(env, "circ:take-len-closed", format!("closed buffer: take() returned {} bytes ({} buffered, read size {}, write size {})", got.len(), len, self.r, self.w), self.describe())?;
+                    }
+                    let expect: Vec<u8> = self.model.iter().take(got.len()).copied().collect();
+                    if got != expect {
+                        known_or_violation(env, "circ:take-bytes", format!("take() returned {got:?}, the reference queue has {expect:?} at its head"), self.describe())?;
+                    }
+                    if self.closed && got.len() < self.r {
+                        self.st.closed_remainder = true;
+                    }
+                    let _ = want_len;
+                    self.model.drain(..got.len().min(len));
+                    self.st.takes_data += 1;
+                }
+                self.check(env, "take")?;
+            }
+            _ => {
+                if self.closed {
+                    self.st.skipped += 1;
+                    return Ok(false);
+                }
+                self.buf.close();
+                self.closed = true;
+                self.st.closed = true;
+                self.st.eff.push(2);
+                self.check(env, "close")?;
+            }
+        }
+        Ok(true)
+    }
+
+    /// close (if open) and drain: everything written comes out, in order
+    fn finish(&mut self, env: &Env) -> Result<(), CaseErr> {
+        if !self.closed {
+            self.apply(env, 2)?;
+        }
+        let mut guard = 0;
+        while !self.model.is_empty() {
+            self.apply(env, 1)?;
+            guard += 1;
+            if guard > self.cap + 2 {
+                known_or_violation(env, "circ:drain", "closed buffer does not drain".to_string(), self.describe())?;
+                break;
+            }
+        }
+        if !self.buf.take().is_empty() {
+            known_or_violation(env, "circ:drain-extra", "take() on a drained closed buffer returned data".to_string(), self.describe())?;
+        }
+        Ok(())
+    }
+
+    fn outcome(self, extra_digest: u64) -> CaseResult {
+        let st = &self.st;
+        let nontrivial = st.wrapped && st.takes_data > 0;
+        let mut ok = CaseOk::new(nontrivial, &(self.cap, self.w, self.r, &st.eff, extra_digest), self.describe());
+        let mut l = |c: bool, s: &str| {
+            if c {
+                ok.labels.push(s.to_string());
+            }
+        };
+        l(st.wrapped, "wrapped");
+        l(st.full_reached, "full_reached");
+        l(st.takes_empty > 0, "take_when_unreadable");
+        l(st.closed_remainder, "remainder_after_close");
+        l(self.cap % self.r != 0, "capacity_not_multiple_of_read");
+        l(self.cap == self.r, "capacity_eq_read");
+        l(self.r == self.w, "read_eq_write");
+        l(self.w > 1, "write_size>1");
+        Ok(ok)
+    }
+}
+
+fn ops_str(eff: &[u8]) -> String {
+    eff.iter().map(|o| ['W', 'T', 'C'][*o as usize]).collect()
+}
+
+/// triples of the exhaustive sub-check: write size 1..=3, read 1..=3 units, capacity read..=4 units
+fn circ_small_triples() -> Vec<(usize, usize, usize)> {
+    let mut v = vec![];
+    for w in 1..=3usize {
+        for r in 1..=3usize {
+            for c in r..=4usize {
+                v.push((c * w, w, r * w));
+            }
+        }
+    }
+    v
+}
+
+const CIRC_DEPTH_QUICK: u32 = 11;
+const CIRC_DEPTH_THOROUGH: u32 = 14;
+
+fn circ_exh_total(depth: u32) -> u64 {
+    circ_small_triples().len() as u64 * 3u64.pow(depth)
+}
+
+fn circ_exhaustive(env: &Env, src: &mut Src<'_>) -> CaseResult {
+    let i = u64::from(src.raw()) | (u64::from(src.raw()) << 32);
+    let depth = if env.thorough() { CIRC_DEPTH_THOROUGH } else { CIRC_DEPTH_QUICK };
+    let seqs = 3u64.pow(depth);
+    let triples = circ_small_triples();
+    let (cap, w, r) = triples[(i / seqs) as usize % triples.len()];
+    let mut code = i % seqs;
+    let mut run = CircRun::new(cap, w, r, (i % 251) as u8);
+    run.check(env, "new")?;
+    for _ in 0..depth {
+        let op = (code % 3) as u8;
+        code /= 3;
+        run.apply(env, op)?;
+    }
+    run.finish(env)?;
+    // distinct counting is over the *effective* sequences (skipped operations do not count)
+    run.outcome(0)
+}
+
+fn circ_random(env: &Env, src: &mut Src<'_>) -> CaseResult {
+    let w = src.pick(&[1usize, 1, 2, 3, 4, 5, 7, 8, 16, 32]);
+    let r_units = src.urange(1, 6);
+    let c_units = r_units + src.pick(&[0usize, 0, 1, 1, 2, 3, 5, 6, 11]);
+    let (cap, r) = (c_units * w, r_units * w);
+    let salt = src.below(256) as u8;
+    let mut run = CircRun::new(cap, w, r, salt);
+    run.check(env, "new")?;
+    let n_ops = src.urange(1, 120);
+    let close_at = if src.chance(1, 2) { Some(src.idx(n_ops)) } else { None };
+    let mut k = 0;
+    while k < n_ops {
+        if close_at == Some(k) {
+            run.apply(env, 2)?;
+        }
+        // bursts make "full" and "empty" states frequent
+        let mode = src.below(8);
+        match mode {
+            0 => {
+                // write until full
+                while run.apply(env, 0)? {
+                    k += 1;
+                }
+            }
+            1 => {
+                // drain
+                for _ in 0..c_units {
+                    run.apply(env, 1)?;
+                    k += 1;
+                }
+            }
+            2..=4 => {
+                run.apply(env, 0)?;
+            }
+            _ => {
+                run.apply(env, 1)?;
+            }
+        }
+        k += 1;
+    }
+    run.finish(env)?;
+    run.outcome(0)
+}
+
+// ==========================================================================================
+// (b) OrderingSender under the deterministic executor
+// ==========================================================================================
+
+#[cfg(not(feature = "shuttle"))]
+mod sender_det {
+    use super::*;
+    use crate::helpers::buffers::OrderingSender;
+
+    #[derive(Clone, Debug)]
+    pub struct SCfg {
+        pub w: usize,
+        pub cap_units: usize,
+        pub read_units: usize,
+        pub n_msgs: usize,
+        /// indices sent by each writer task (ascending inside a task)
+        pub tasks: Vec<Vec<usize>>,
+        pub salt: u8,
+    }
+
+    impl SCfg {
+        pub fn cap(&self) -> usize {
+            self.cap_units * self.w
+        }
+        pub fn read(&self) -> usize {
+            self.read_units * self.w
+        }
+        pub fn msg(&self, i: usize) -> Vec<u8> {
+            (0..self.w).map(|k| (i as u8).wrapping_mul(31).wrapping_add((k as u8).wrapping_mul(7)).wrapping_add(self.salt)).collect()
+        }
+        pub fn json(&self) -> Value {
+            json!({"write_size": self.w, "capacity": self.cap(), "read_size": self.read(), "messages": self.n_msgs, "writer_tasks": self.tasks})
+        }
+    }
+
+    /// poll-level reference model + observations, shared between the tasks and the scheduler
+    #[derive(Default)]
+    pub struct Model {
+        /// number of completed send/close operations = index whose turn it is
+        pub next: usize,
+        /// bytes in the buffer
+        pub occ: usize,
+        pub closed: bool,
+        /// bytes handed to the reader
+        pub taken: usize,
+        /// operation each writer/closer task currently waits on (None = finished)
+        pub cur: Vec<Option<usize>>,
+        pub reader_done: bool,
+        pub err: Option<(String, String)>,
+        // observations
+        pub blocked_full: usize,
+        pub waiting_turn: usize,
+        pub chunks: Vec<(usize, bool)>,
+        pub reader_pending: usize,
+    }
+
+    type Shared = Rc<RefCell<Model>>;
+
+    fn set_err(m: &mut Model, sig: &str, msg: String) {
+        if m.err.is_none() {
+            m.err = Some((sig.to_string(), msg));
+        }
+    }
+
+    type MakeOp<'a> = fn(&'a OrderingSender, &'a SCfg, usize) -> Pin<Box<dyn Future<Output = ()> + 'a>>;
+
+    fn make_op<'a, N: ArrayLength>(sender: &'a OrderingSender, cfg: &'a SCfg, i: usize) -> Pin<Box<dyn Future<Output = ()> + 'a>> {
+        if i == cfg.n_msgs {
+            Box::pin(sender.close(i))
+        } else {
+            Box::pin(sender.send::<Bytes<N>, Bytes<N>>(i, Bytes::<N>::from_slice(&cfg.msg(i))))
+        }
+    }
+
+    /// a writer task: sends its indices one after the other, yielding after each completed send
+    struct Writer<'a> {
+        id: usize,
+        cfg: &'a SCfg,
+        idxs: Vec<usize>,
+        pos: usize,
+        sender: &'a OrderingSender,
+        make: MakeOp<'a>,
+        fut: Option<Pin<Box<dyn Future<Output = ()> + 'a>>>,
+        sh: Shared,
+    }
+
+    impl Future for Writer<'_> {
+        type Output = ();
+        fn poll(self: Pin<&mut Self>, cx: &mut Context<'_>) -> Poll<()> {
+            let this = Pin::get_mut(self);
+            if this.pos == this.idxs.len() {
+                return Poll::Ready(());
+            }
+            let i = this.idxs[this.pos];
+            if this.fut.is_none() {
+                this.fut = Some((this.make)(this.sender, this.cfg, i));
+            }
+            let is_close = i == this.cfg.n_msgs;
+            let (my_turn, space) = {
+                let m = this.sh.borrow();
+                (m.next == i, is_close || m.occ + this.cfg.w <= this.cfg.cap())
+            };
+            let expect_ready = my_turn && space;
+            let r = this.fut.as_mut().unwrap().as_mut().poll(cx);
+            let mut m = this.sh.borrow_mut();
+            match (r, expect_ready) {
+                (Poll::Ready(()), true) => {
+                    this.fut = None;
+                    this.pos += 1;
+                    m.next += 1;
+                    if is_close {
+                        m.closed = true;
+                    } else {
+                        m.occ += this.cfg.w;
+                    }
+                    let done = this.pos == this.idxs.len();
+                    m.cur[this.id] = if done { None } else { Some(this.idxs[this.pos]) };
+                    if done {
+                        Poll::Ready(())
+                    } else {
+                        cx.waker().wake_by_ref();
+                        Poll::Pending
+                    }
+                }
+                (Poll::Pending, false) => {
+                    if my_turn {
+                        m.blocked_full += 1;
+                    } else {
+                        m.waiting_turn += 1;
+                    }
+                    Poll::Pending
+                }
+                (Poll::Ready(()), false) => {
+                    let (sig, msg) = if my_turn {
+                        ("sender:write-into-full", format!("send({i}) completed although the buffer holds {} of {} bytes (write size {})", m.occ, this.cfg.cap(), this.cfg.w))
+                    } else {
+                        ("sender:out-of-turn", format!("{}({i}) completed although only {} earlier operations have completed", if is_close { "close" } else { "send" }, m.next))
+                    };
+                    set_err(&mut m, sig, msg);
+                    Poll::Ready(())
+                }
+                (Poll::Pending, true) => {
+                    let msg = format!(
+                        "{}({i}) returned Pending although all earlier operations have completed and the buffer holds {} of {} bytes",
+                        if is_close { "close" } else { "send" },
+                        m.occ,
+                        this.cfg.cap()
+                    );
+                    set_err(&mut m, "sender:spurious-block", msg);
+                    Poll::Ready(())
+                }
+            }
+        }
+    }
+
+    /// the stream reader: one `take_next` per poll, yields after every chunk
+    struct Reader<'a> {
+        cfg: &'a SCfg,
+        sender: &'a OrderingSender,
+        expected: &'a [u8],
+        sh: Shared,
+    }
+
+    impl Future for Reader<'_> {
+        type Output = ();
+        fn poll(self: Pin<&mut Self>, cx: &mut Context<'_>) -> Poll<()> {
+            let this = Pin::get_mut(self);
+            let r = this.sender.take_next(cx);
+            let mut m = this.sh.borrow_mut();
+            let (read, w) = (this.cfg.read(), this.cfg.w);
+            let readable = m.occ >= read || (m.closed && m.occ > 0);
+            match r {
+                Poll::Ready(Some(v)) => {
+                    if !readable {
+                        let msg = format!("stream yielded {} bytes while {} bytes (< read size {read}) are buffered and the sender is open", v.len(), m.occ);
+                        set_err(&mut m, "sender:early-chunk", msg);
+                        m.reader_done = true;
+                        return Poll::Ready(());
+                    }
+                    let closed = m.closed;
+                    let bad_len = if closed { v.is_empty() || v.len() > read || v.len() > m.occ || v.len() % w != 0 } else { v.len() != read };
+                    if bad_len {
+                        let msg = format!("stream yielded a chunk of {} bytes; read size {read}, buffered {}, closed {closed}, write size {w}", v.len(), m.occ);
+                        set_err(&mut m, if closed { "sender:chunk-len-closed" } else { "sender:chunk-len-open" }, msg);
+                        m.reader_done = true;
+                        return Poll::Ready(());
+                    }
+                    let exp = this.expected.get(m.taken..m.taken + v.len());
+                    if exp != Some(v.as_slice()) {
+                        let msg = format!("stream bytes at offset {} are {:?}, the concatenation in index order has {:?}", m.taken, v, exp);
+                        set_err(&mut m, "sender:bytes", msg);
+                        m.reader_done = true;
+                        return Poll::Ready(());
+                    }
+                    m.occ -= v.len();
+                    m.taken += v.len();
+                    m.chunks.push((v.len(), closed));
+                    cx.waker().wake_by_ref();
+                    Poll::Pending
+                }
+                Poll::Ready(None) => {
+                    if readable || !m.closed {
+                        let msg = format!("stream ended with {} bytes buffered, closed = {}", m.occ, m.closed);
+                        set_err(&mut m, "sender:early-end", msg);
+                    } else if m.taken != this.expected.len() {
+                        let msg = format!("stream ended after {} of {} bytes", m.taken, this.expected.len());
+                        set_err(&mut m, "sender:lost-bytes", msg);
+                    }
+                    m.reader_done = true;
+                    Poll::Ready(())
+                }
+                Poll::Pending => {
+                    if readable || m.closed {
+                        let msg = format!("stream returned Pending with {} bytes buffered (read size {read}), closed = {}", m.occ, m.closed);
+                        set_err(&mut m, "sender:reader-blocked", msg);
+                        m.reader_done = true;
+                        return Poll::Ready(());
+                    }
+                    m.reader_pending += 1;
+                    Poll::Pending
+                }
+            }
+        }
+    }
+
+    pub struct Outcome {
+        pub polls: usize,
+        pub trace: Vec<usize>,
+        pub blocked_full: usize,
+        pub waiting_turn: usize,
+        pub chunks: Vec<(usize, bool)>,
+        pub reader_pending: usize,
+        pub spurious: usize,
+    }
+
+    /// what the scheduler sees before each poll
+    pub struct View<'v> {
+        pub runnable: &'v [usize],
+        pub alive: &'v [usize],
+    }
+
+    /// One execution. `pick` returns the id of the task to poll (any live task; polling a live
+    /// task that is not runnable is a spurious poll).
+    pub fn run_once<N: ArrayLength>(env: &Env, cfg: &SCfg, pick: &mut dyn FnMut(&View<'_>) -> usize) -> Result<Outcome, CaseErr> {
+        let nz = |v: usize| NonZeroUsize::new(v).unwrap();
+        let sender = OrderingSender::new(nz(cfg.cap()), nz(cfg.w), nz(cfg.read()));
+        let expected: Vec<u8> = (0..cfg.n_msgs).flat_map(|i| cfg.msg(i)).collect();
+        let k = cfg.tasks.len();
+        let sh: Shared = Rc::new(RefCell::new(Model::default()));
+        {
+            let mut m = sh.borrow_mut();
+            m.cur = cfg.tasks.iter().map(|t| t.first().copied()).collect();
+            m.cur.push(Some(cfg.n_msgs));
+        }
+        let make: MakeOp<'_> = make_op::<N>;
+        let mut exec = detexec::DetExec::new();
+        for (id, idxs) in cfg.tasks.iter().enumerate() {
+            exec.spawn(Writer { id, cfg, idxs: idxs.clone(), pos: 0, sender: &sender, make, fut: None, sh: Rc::clone(&sh) });
+        }
+        let closer = exec.spawn(Writer { id: k, cfg, idxs: vec![cfg.n_msgs], pos: 0, sender: &sender, make, fut: None, sh: Rc::clone(&sh) });
+        let reader = exec.spawn(Reader { cfg, sender: &sender, expected: &expected, sh: Rc::clone(&sh) });
+        debug_assert_eq!((closer, reader), (k, k + 1));
+
+        let mut trace: Vec<usize> = vec![];
+        let mut spurious = 0;
+        let case = |trace: &[usize]| {
+            let mut c = cfg.json();
+            c["schedule"] = json!(trace);
+            c["tasks"] = json!(format!("0..{k} writers, {k} closer, {} reader", k + 1));
+            c
+        };
+        let max_polls = 40 * (cfg.n_msgs + k + 4) + 200;
+        loop {
+            if exec.all_done() {
+                break;
+            }
+            let runnable = exec.runnable();
+            if runnable.is_empty() {
+                let m = sh.borrow();
+                let stuck: Vec<usize> = (0..exec.len()).filter(|&t| !exec.is_done(t)).collect();
+                let msg = format!(
+                    "no task is runnable but tasks {stuck:?} have not finished (completed operations {}, buffered {}, closed {}): lost wake-up / deadlock",
+                    m.next, m.occ, m.closed
+                );
+                drop(m);
+                known_or_violation(env, "sender:deadlock", msg, case(&trace))?;
+                break;
+            }
+            if trace.len() > max_polls {
+                return Err(CaseErr::Reject("poll bound exceeded".into()));
+            }
+            let alive: Vec<usize> = (0..exec.len()).filter(|&t| !exec.is_done(t)).collect();
+            let id = pick(&View { runnable: &runnable, alive: &alive });
+            if !exec.is_runnable(id) {
+                spurious += 1;
+            }
+            trace.push(id);
+            exec.poll(id);
+            let err = sh.borrow_mut().err.take();
+            if let Some((sig, msg)) = err {
+                known_or_violation(env, &sig, msg, case(&trace))?;
+                break;
+            }
+            // wake-up invariant: a task that can make progress in the reference state is runnable
+            let m = sh.borrow();
+            for t in 0..=k {
+                if exec.is_done(t) {
+                    continue;
+                }
+                if let Some(i) = m.cur[t] {
+                    let enabled = m.next == i && (i == cfg.n_msgs || m.occ + cfg.w <= cfg.cap());
+                    if enabled && !exec.is_runnable(t) {
+                        let msg = format!(
+                            "after polling task {id}: task {t} waits for index {i}, all earlier operations have completed and the buffer has room ({} of {} bytes), but it has not been woken",
+                            m.occ,
+                            cfg.cap()
+                        );
+                        drop(m);
+                        known_or_violation(env, "sender:missed-wake-writer", msg, case(&trace))?;
+                        return Ok(outcome(&sh, trace, spurious));
+                    }
+                }
+            }
+            if !exec.is_done(reader) && (m.occ >= cfg.read() || m.closed) && !exec.is_runnable(reader) {
+                let msg = format!("after polling task {id}: {} bytes buffered (read size {}), closed {}, but the stream reader has not been woken", m.occ, cfg.read(), m.closed);
+                drop(m);
+                known_or_violation(env, "sender:missed-wake-reader", msg, case(&trace))?;
+                return Ok(outcome(&sh, trace, spurious));
+            }
+        }
+        Ok(outcome(&sh, trace, spurious))
+    }
+
+    fn outcome(sh: &Shared, trace: Vec<usize>, spurious: usize) -> Outcome {
+        let m = sh.borrow();
+        Outcome {
+            polls: trace.len(),
+            trace,
+            blocked_full: m.blocked_full,
+            waiting_turn: m.waiting_turn,
+            chunks: m.chunks.clone(),
+            reader_pending: m.reader_pending,
+            spurious,
+        }
+    }
+
+    pub fn run_once_sized(env: &Env, cfg: &SCfg, pick: &mut dyn FnMut(&View<'_>) -> usize) -> Result<Outcome, CaseErr> {
+        by_size!(cfg.w, run_once(env, cfg, pick))
+    }
+
+    // -------------------------------- all schedules (DFS) ---------------------------------
+
+    /// configurations of the exhaustive sub-check: n single-message writers, capacity and read
+    /// size in units of the 2-byte message. For n >= 4 only the extreme read sizes (1 and
+    /// capacity) are kept.
+    pub fn dfs_configs(thorough: bool) -> Vec<(usize, usize, usize)> {
+        let mut v = vec![];
+        let max_n = dfs_max_n(thorough);
+        for n in 0..=max_n {
+            for cap in 1..=3usize {
+                for read in 1..=cap {
+                    if n >= 4 && read != 1 && read != cap {
+                        continue;
+                    }
+                    if n >= 5 && cap == 3 {
+                        continue;
+                    }
+                    v.push((n, cap, read));
+                }
+            }
+        }
+        v
+    }
+
+    pub fn dfs_max_n(thorough: bool) -> usize {
+        if thorough { 5 } else { 4 }
+    }
+
+    /// the first DFS_PREFIX polls of a case are fixed by its index (radix = max task count), so
+    /// that the big configurations are split over many cases / worker threads
+    pub const DFS_PREFIX: usize = 3;
+    pub const DFS_BUDGET_QUICK: u64 = 2_000_000;
+    pub const DFS_BUDGET_THOROUGH: u64 = 60_000_000;
+
+    pub fn sender_dfs_total(thorough: bool) -> u64 {
+        let radix = (dfs_max_n(thorough) + 2) as u64;
+        dfs_configs(thorough).len() as u64 * radix.pow(DFS_PREFIX as u32)
+    }
+
+    pub fn sender_dfs(env: &Env, src: &mut Src<'_>) -> CaseResult {
+        let i = (u64::from(src.raw()) | (u64::from(src.raw()) << 32)) as usize;
+        let cfgs = dfs_configs(env.thorough());
+        let radix = dfs_max_n(env.thorough()) + 2;
+        // configurations are interleaved over the index space (neighbouring indices = different
+        // configurations) to balance the worker threads
+        let (n, cap_units, read_units) = cfgs[i % cfgs.len()];
+        let mut p = i / cfgs.len();
+        let mut prefix = [0usize; DFS_PREFIX];
+        for d in &mut prefix {
+            *d = p % radix;
+            p /= radix;
+        }
+        let trivial = |why: &str| Ok(CaseOk::new(false, &i, Value::Null).label(why.to_string()));
+        if prefix.iter().any(|d| *d >= n + 2) {
+            return trivial("prefix_not_applicable");
+        }
+        let cfg = SCfg { w: 2, cap_units, read_units, n_msgs: n, tasks: (0..n).map(|j| vec![j]).collect(), salt: 0x40 };
+        let budget = if env.thorough() { DFS_BUDGET_THOROUGH } else { DFS_BUDGET_QUICK };
+        // stateless DFS over the choice "which runnable task is polled next"; entries below
+        // DFS_PREFIX are pinned
+        let mut stack: Vec<(usize, usize)> = prefix.iter().map(|d| (*d, *d + 1)).collect();
+        let mut schedules = 0u64;
+        let mut complete = true;
+        let mut max_polls = 0;
+        let mut any_blocked_full = 0u64;
+        let mut any_waiting = 0u64;
+        loop {
+            let mut depth = 0;
+            let mut invalid = false;
+            let out = {
+                let stack = &mut stack;
+                let invalid = &mut invalid;
+                let depth = &mut depth;
+                run_once_sized(env, &cfg, &mut |v: &View<'_>| {
+                    let n_run = v.runnable.len();
+                    let c = if *depth < stack.len() {
+                        stack[*depth].0
+                    } else {
+                        stack.push((0, n_run));
+                        0
+                    };
+                    *depth += 1;
+                    if c >= n_run {
+                        *invalid = true;
+                        return v.runnable[0];
+                    }
+                    v.runnable[c]
+                })?
+            };
+            if invalid {
+                // only a pinned entry can be out of range (the others were recorded with their radix)
+                return trivial("prefix_not_applicable");
+            }
+            if depth < DFS_PREFIX {
+                // the execution is shorter than the prefix: count it once (all unused digits zero)
+                if prefix[depth..].iter().any(|d| *d != 0) {
+                    return trivial("prefix_not_applicable");
+                }
+                stack.truncate(depth);
+            }
+            schedules += 1;
+            max_polls = max_polls.max(out.polls);
+            any_blocked_full += u64::from(out.blocked_full > 0);
+            any_waiting += u64::from(out.waiting_turn > 0);
+            // backtrack
+            while let Some((c, nn)) = stack.last().copied() {
+                if c + 1 < nn {
+                    stack.last_mut().unwrap().0 = c + 1;
+                    break;
+                }
+                stack.pop();
+            }
+            if stack.is_empty() {
+                break;
+            }
+            if schedules >= budget {
+                complete = false;
+                break;
+            }
+        }
+        let bucket = match schedules {
+            0..=9 => "schedules:<10",
+            10..=999 => "schedules:10..1e3",
+            1000..=99_999 => "schedules:1e3..1e5",
+            100_000..=9_999_999 => "schedules:1e5..1e7",
+            _ => "schedules:>=1e7",
+        };
+        let sample = json!({"config": cfg.json(), "first_polls": prefix, "schedules_explored": schedules, "complete": complete,
+            "max_polls": max_polls, "schedules_with_writer_blocked_on_full": any_blocked_full, "schedules_with_out_of_turn_arrival": any_waiting});
+        Ok(CaseOk::new(n >= 1, &(n, cap_units, read_units, prefix, schedules), sample)
+            .label(bucket)
+            .label(if complete { "dfs_complete" } else { "dfs_truncated" })
+            .label(format!("writers:{n}"))
+            .label(if any_blocked_full > 0 { "has_blocked_on_full" } else { "no_blocked_on_full" })
+            .label(format!("schedules_log2:{}", 64 - schedules.leading_zeros())))
+    }
+
+    // -------------------------------- generated schedules ----------------------------------
+
+    pub fn sender_random(env: &Env, src: &mut Src<'_>) -> CaseResult {
+        let w = src.pick(&[1usize, 2, 3, 5, 8]);
+        let cap_units = src.pick(&[1usize, 1, 2, 2, 3, 4, 6]);
+        let read_units = src.urange(1, cap_units);
+        let n_msgs = src.pick(&[0usize, 1, 2, 3, 4, 5, 6, 6, 7, 9, 12]);
+        let k = if n_msgs == 0 { 0 } else { src.urange(1, n_msgs.min(6)) };
+        let mut tasks: Vec<Vec<usize>> = vec![vec![]; k];
+        // every task gets at least one index when possible; ascending order inside a task
+        let perm = src.perm(n_msgs);
+        for (pos, idx) in perm.iter().enumerate() {
+            let t = if pos < k { pos } else { src.idx(k) };
+            tasks[t].push(*idx);
+        }
+        for t in &mut tasks {
+            t.sort_unstable();
+        }
+        let cfg = SCfg { w, cap_units, read_units, n_msgs, tasks, salt: src.below(256) as u8 };
+        // schedule style: uniformly random / reader-starved (fills the buffer) / writers in
+        // descending index order first (everybody arrives out of turn)
+        let style = src.below(4);
+        let spurious_den = src.pick(&[0u64, 0, 16, 6]);
+        let mut first_round: Vec<usize> = match style {
+            2 => (0..k + 2).rev().collect(),
+            _ => vec![],
+        };
+        let reader = k + 1;
+        let out = run_once_sized(env, &cfg, &mut |v: &View<'_>| {
+            if let Some(t) = first_round.pop() {
+                if v.alive.contains(&t) {
+                    return t;
+                }
+            }
+            if spurious_den > 0 && src.chance(1, spurious_den) {
+                return v.alive[src.idx(v.alive.len())];
+            }
+            if style == 1 && v.runnable.len() > 1 && src.chance(3, 4) {
+                // starve the reader while anything else can run
+                let others: Vec<usize> = v.runnable.iter().copied().filter(|t| *t != reader).collect();
+                if !others.is_empty() {
+                    return others[src.idx(others.len())];
+                }
+            }
+            v.runnable[src.idx(v.runnable.len())]
+        })?;
+        let total = cfg.n_msgs * cfg.w;
+        let open_chunks = out.chunks.iter().filter(|c| !c.1).count();
+        let remainder = out.chunks.iter().any(|c| c.1 && c.0 < cfg.read());
+        let nontrivial = n_msgs >= 2 && out.waiting_turn > 0;
+        let sample = json!({"config": cfg.json(), "schedule": out.trace, "chunks": out.chunks.iter().map(|c| json!([c.0, if c.1 {"closed"} else {"open"}])).collect::<Vec<_>>(),
+            "blocked_on_full_polls": out.blocked_full, "out_of_turn_polls": out.waiting_turn});
+        let mut ok = CaseOk::new(nontrivial, &(cfg.w, cfg.cap_units, cfg.read_units, &cfg.tasks, &out.trace), sample);
+        let mut l = |c: bool, s: &str| {
+            if c {
+                ok.labels.push(s.to_string());
+            }
+        };
+        l(out.blocked_full > 0, "writer_blocked_on_full");
+        l(out.waiting_turn > 0, "out_of_turn_arrival");
+        l(out.reader_pending > 0, "reader_waited");
+        l(open_chunks > 0, "chunk_before_close");
+        l(remainder, "remainder_after_close");
+        l(out.spurious > 0, "spurious_polls");
+        l(total > cfg.cap(), "stream_longer_than_capacity");
+        l(cfg.tasks.iter().any(|t| t.len() > 1), "multi_message_writer");
+        l(n_msgs == 0, "no_messages");
+        l(cfg.cap() % cfg.read() != 0, "capacity_not_multiple_of_read");
+        Ok(ok)
+    }
+}
+
+// ==========================================================================================
+// (c) UnorderedReceiver under the deterministic executor
+// ==========================================================================================
+
+#[cfg(not(feature = "shuttle"))]
+mod recv_det {
+    use std::sync::{Arc, Mutex};
+
+    use futures::Stream;
+
+    use super::*;
+    use crate::helpers::buffers::{UnorderedReceiver, UnorderedReceiverError};
+
+    #[derive(Default)]
+    struct FedInner {
+        q: VecDeque<Vec<u8>>,
+        closed: bool,
+        waker: Option<Waker>,
+        /// observations
+        pulled_pending: usize,
+    }
+
+    /// a chunk stream fed by the harness; wakes the last poller when a chunk arrives or it closes
+    #[derive(Clone, Default)]
+    struct Fed(Arc<Mutex<FedInner>>);
+
+    impl Fed {
+        fn push(&self, c: Vec<u8>) {
+            let mut g = self.0.lock().unwrap();
+            g.q.push_back(c);
+            if let Some(w) = g.waker.take() {
+                w.wake();
+            }
+        }
+        fn close(&self) {
+            let mut g = self.0.lock().unwrap();
+            g.closed = true;
+            if let Some(w) = g.waker.take() {
+                w.wake();
+            }
+        }
+    }
+
+    impl Stream for Fed {
+        type Item = Vec<u8>;
+        fn poll_next(self: Pin<&mut Self>, cx: &mut Context<'_>) -> Poll<Option<Vec<u8>>> {
+            let mut g = self.0.lock().unwrap();
+            if let Some(c) = g.q.pop_front() {
+                Poll::Ready(Some(c))
+            } else if g.closed {
+                Poll::Ready(None)
+            } else {
+                g.waker = Some(cx.waker().clone());
+                g.pulled_pending += 1;
+                Poll::Pending
+            }
+        }
+    }
+
+    #[derive(Clone, Debug)]
+    pub struct RCfg {
+        pub s: usize,
+        pub cap: usize,
+        pub stream: Vec<u8>,
+        /// chunk lengths (sum = stream length; zero-length chunks allowed)
+        pub chunks: Vec<usize>,
+        /// requested indices (distinct); request `m` is the one that must see the end of stream
+        pub requests: Vec<usize>,
+    }
+
+    impl RCfg {
+        pub fn m(&self) -> usize {
+            self.stream.len() / self.s
+        }
+        pub fn json(&self) -> Value {
+            json!({"message_size": self.s, "capacity": self.cap, "stream": self.stream, "chunks": self.chunks, "requests": self.requests})
+        }
+    }
+
+    #[derive(Default)]
+    struct RModel {
+        /// number of receives completed = index whose turn it is
+        next: usize,
+        /// bytes handed to the stream so far, and whether the stream has been closed
+        pushed: usize,
+        closed: bool,
+        err: Option<(String, String)>,
+        done: Vec<bool>,
+        // observations
+        beyond_capacity: usize,
+        ahead: usize,
+        waited_for_data: usize,
+        deser_err: usize,
+        deser_err_index_plus_one: usize,
+        deser_err_index_exact: usize,
+        eos_seen: bool,
+    }
+
+    type Shared = Rc<RefCell<RModel>>;
+
+    struct RecvTask<'a, N: ArrayLength, F: Future<Output = Result<Bytes<N>, UnorderedReceiverError>>> {
+        j: usize,
+        cfg: &'a RCfg,
+        fut: Pin<Box<F>>,
+        sh: Shared,
+        first: bool,
+    }
+
+    impl<N: ArrayLength, F: Future<Output = Result<Bytes<N>, UnorderedReceiverError>>> Future for RecvTask<'_, N, F> {
+        type Output = ();
+        fn poll(self: Pin<&mut Self>, cx: &mut Context<'_>) -> Poll<()> {
+            let this = Pin::get_mut(self);
+            let (j, s, m_total) = (this.j, this.cfg.s, this.cfg.m());
+            let (turn, have, closed, next) = {
+                let m = this.sh.borrow();
+                (m.next == j, m.pushed >= (j + 1) * s, m.closed, m.next)
+            };
+            let expect_ready = turn && (have || closed);
+            let r = this.fut.as_mut().poll(cx);
+            let mut m = this.sh.borrow_mut();
+            if this.first {
+                this.first = false;
+                if j > next {
+                    m.ahead += 1;
+                }
+                if j > next + this.cfg.cap {
+                    m.beyond_capacity += 1;
+                }
+            }
+            let fail = |m: &mut RModel, sig: &str, msg: String| {
+                if m.err.is_none() {
+                    m.err = Some((sig.to_string(), msg));
+                }
+                m.done[j] = true;
+                Poll::Ready(())
+            };
+            match r {
+                Poll::Pending => {
+                    if expect_ready {
+                        let msg = format!("recv({j}) returned Pending although receives 0..{j} have completed and {} bytes have arrived (closed {closed})", m.pushed);
+                        return fail(&mut m, "recv:blocked", msg);
+                    }
+                    if turn {
+                        m.waited_for_data += 1;
+                    }
+                    Poll::Pending
+                }
+                Poll::Ready(res) => {
+                    if !expect_ready {
+                        let msg = format!("recv({j}) completed with {res:?} although only {next} receives have completed / {} bytes have arrived", m.pushed);
+                        return fail(&mut m, "recv:out-of-turn", msg);
+                    }
+                    if j < m_total {
+                        let bytes = &this.cfg.stream[j * s..(j + 1) * s];
+                        match res {
+                            Ok(v) => {
+                                if bytes[0] == POISON {
+                                    let msg = format!("recv({j}) returned {v:?} for bytes that do not deserialize");
+                                    return fail(&mut m, "recv:missing-deserialize-error", msg);
+                                }
+                                if v.0.as_slice() != bytes {
+                                    let msg = format!("recv({j}) returned {:?}, the {j}-th message of the stream is {:?}", v.0.as_slice(), bytes);
+                                    return fail(&mut m, "recv:wrong-message", msg);
+                                }
+                            }
+                            Err(UnorderedReceiverError::DeserializeFailed(e)) => {
+                                if bytes[0] != POISON {
+                                    let msg = format!("recv({j}) failed with {e} for a valid message");
+                                    return fail(&mut m, "recv:spurious-deserialize-error", msg);
+                                }
+                                m.deser_err += 1;
+                                // observation only: which record id the error text names
+                                let txt = format!("{e}");
+                                if txt.contains(&format!("RecordId({})", j + 1)) {
+                                    m.deser_err_index_plus_one += 1;
+                                } else if txt.contains(&format!("RecordId({j})")) {
+                                    m.deser_err_index_exact += 1;
+                                }
+                            }
+                            Err(UnorderedReceiverError::EndOfStream(e)) => {
+                                let msg = format!("recv({j}) failed with {e} although the stream holds {m_total} complete messages");
+                                return fail(&mut m, "recv:early-end-of-stream", msg);
+                            }
+                        }
+                    } else {
+                        match res {
+                            Err(UnorderedReceiverError::EndOfStream(_)) => m.eos_seen = true,
+                            other => {
+                                let msg = format!("recv({j}) returned {other:?} although the stream ends after {m_total} complete messages");
+                                return fail(&mut m, "recv:missing-end-of-stream", msg);
+                            }
+                        }
+                    }
+                    m.next += 1;
+                    m.done[j] = true;
+                    Poll::Ready(())
+                }
+            }
+        }
+    }
+
+    pub struct ROutcome {
+        pub trace: Vec<i64>,
+        pub beyond_capacity: usize,
+        pub ahead: usize,
+        pub waited_for_data: usize,
+        pub deser_err: usize,
+        pub deser_err_index_plus_one: usize,
+        pub deser_err_index_exact: usize,
+        pub eos_seen: bool,
+        pub spurious: usize,
+        pub stream_pending: usize,
+    }
+
+    pub struct RView<'v> {
+        /// runnable request tasks (task id = position in cfg.requests)
+        pub runnable: &'v [usize],
+        pub alive: &'v [usize],
+        /// chunks not yet handed to the stream (the feeder can act while > 0 or until it closed)
+        pub feeder_can_act: bool,
+    }
+
+    pub enum Act {
+        Poll(usize),
+        /// hand the next chunk to the stream (or close it when none is left)
+        Feed,
+    }
+
+    /// One execution. All chunks in `prefed` are available (and the stream closed if
+    /// `prefed == chunks.len()` and `preclosed`) before the first request is polled.
+    pub fn run_once<N: ArrayLength>(env: &Env, cfg: &RCfg, prefed: usize, pick: &mut dyn FnMut(&RView<'_>) -> Act) -> Result<ROutcome, CaseErr> {
+        let fed = Fed::default();
+        let recv = UnorderedReceiver::new(Box::pin(fed.clone()), NonZeroUsize::new(cfg.cap).unwrap());
+        let sh: Shared = Rc::new(RefCell::new(RModel::default()));
+        let max_req = cfg.requests.iter().copied().max().unwrap_or(0);
+        sh.borrow_mut().done = vec![false; max_req + 1];
+        let mut chunk_iter = {
+            let mut off = 0;
+            cfg.chunks
+                .iter()
+                .map(|l| {
+                    let c = cfg.stream[off..off + l].to_vec();
+                    off += l;
+                    c
+                })
+                .collect::<VecDeque<_>>()
+        };
+        let mut feeder_closed = false;
+        let mut feed = |sh: &Shared, chunk_iter: &mut VecDeque<Vec<u8>>, feeder_closed: &mut bool| {
+            if let Some(c) = chunk_iter.pop_front() {
+                sh.borrow_mut().pushed += c.len();
+                fed.push(c);
+            } else if !*feeder_closed {
+                *feeder_closed = true;
+                sh.borrow_mut().closed = true;
+                fed.close();
+            }
+        };
+        for _ in 0..prefed {
+            feed(&sh, &mut chunk_iter, &mut feeder_closed);
+        }
+        let mut exec = detexec::DetExec::new();
+        for &j in &cfg.requests {
+            exec.spawn(RecvTask::<N, _> { j, cfg, fut: Box::pin(recv.recv::<Bytes<N>, usize>(j)), sh: Rc::clone(&sh), first: true });
+        }
+        let mut trace: Vec<i64> = vec![];
+        let mut spurious = 0;
+        let case = |trace: &[i64]| {
+            let mut c = cfg.json();
+            c["prefed_chunks"] = json!(prefed);
+            c["schedule"] = json!(trace);
+            c["schedule_legend"] = json!("k >= 0: poll the task of requests[k]; -1: next chunk (or end of stream) arrives");
+            c
+        };
+        let max_steps = 60 * (cfg.requests.len() + cfg.chunks.len() + 4);
+        loop {
+            if exec.all_done() {
+                break;
+            }
+            let runnable = exec.runnable();
+            let feeder_can_act = !feeder_closed;
+            if runnable.is_empty() && !feeder_can_act {
+                let m = sh.borrow();
+                let stuck: Vec<usize> = (0..exec.len()).filter(|&t| !exec.is_done(t)).map(|t| cfg.requests[t]).collect();
+                let msg = format!(
+                    "the whole stream ({} bytes) has arrived and ended, {} receives completed, but the requests for {stuck:?} are neither runnable nor finished: lost wake-up",
+                    m.pushed, m.next
+                );
+                drop(m);
+                // requests past the end-of-stream index are outside the property (nothing can be
+                // handed to them); they are never generated, so every stuck task is a finding
+                known_or_violation(env, "recv:deadlock", msg, case(&trace))?;
+                break;
+            }
+            if trace.len() > max_steps {
+                return Err(CaseErr::Reject("step bound exceeded".into()));
+            }
+            let alive: Vec<usize> = (0..exec.len()).filter(|&t| !exec.is_done(t)).collect();
+            match pick(&RView { runnable: &runnable, alive: &alive, feeder_can_act }) {
+                Act::Feed => {
+                    trace.push(-1);
+                    feed(&sh, &mut chunk_iter, &mut feeder_closed);
+                }
+                Act::Poll(t) => {
+                    if !exec.is_runnable(t) {
+                        spurious += 1;
+                    }
+                    trace.push(t as i64);
+                    exec.poll(t);
+                }
+            }
+            let err = sh.borrow_mut().err.take();
+            if let Some((sig, msg)) = err {
+                known_or_violation(env, &sig, msg, case(&trace))?;
+                break;
+            }
+            // wake-up invariant: the request whose turn it is and whose data (or the end of the
+            // stream) has arrived is runnable
+            let m = sh.borrow();
+            for t in 0..exec.len() {
+                let j = cfg.requests[t];
+                if !exec.is_done(t) && m.next == j && (m.pushed >= (j + 1) * cfg.s || m.closed) && !exec.is_runnable(t) {
+                    let msg = format!("receives 0..{j} have completed and {} bytes have arrived (closed {}), but the request for {j} has not been woken", m.pushed, m.closed);
+                    drop(m);
+                    known_or_violation(env, "recv:missed-wake", msg, case(&trace))?;
+                    return Ok(outcome(&sh, &fed, trace, spurious));
+                }
+            }
+        }
+        Ok(outcome(&sh, &fed, trace, spurious))
+    }
+
+    fn outcome(sh: &Shared, fed: &Fed, trace: Vec<i64>, spurious: usize) -> ROutcome {
+        let m = sh.borrow();
+        ROutcome {
+            trace,
+            beyond_capacity: m.beyond_capacity,
+            ahead: m.ahead,
+            waited_for_data: m.waited_for_data,
+            deser_err: m.deser_err,
+            deser_err_index_plus_one: m.deser_err_index_plus_one,
+            deser_err_index_exact: m.deser_err_index_exact,
+            eos_seen: m.eos_seen,
+            spurious,
+            stream_pending: fed.0.lock().unwrap().pulled_pending,
+        }
+    }
+
+    pub fn run_once_sized(env: &Env, cfg: &RCfg, prefed: usize, pick: &mut dyn FnMut(&RView<'_>) -> Act) -> Result<ROutcome, CaseErr> {
+        by_size!(cfg.s, run_once(env, cfg, prefed, pick))
+    }
+
+    // -------------------------- exhaustive: chunkings x request orders ----------------------
+
+    #[derive(Clone, Copy, Debug)]
+    pub struct Block {
+        s: usize,
+        len: usize,
+        m: usize,
+        perms: u64,
+        chunkings: u64,
+        count: u64,
+    }
+
+    const CAPS: [usize; 3] = [2, 3, 4];
+    pub const RECV_QUICK_BLOCK_LIMIT: u64 = 2_500_000;
+
+    fn fact(n: usize) -> u64 {
+        (1..=n as u64).product()
+    }
+
+    /// blocks of the enumerated space, ascending by size (the quick tier takes the prefix of
+    /// blocks below RECV_QUICK_BLOCK_LIMIT)
+    pub fn blocks() -> Vec<Block> {
+        let mut v = vec![];
+        for s in 1..=8usize {
+            for len in 1..=12usize {
+                let m = len / s;
+                if m > 6 {
+                    continue;
+                }
+                let perms = fact(m + 1);
+                let chunkings = 1u64 << (len - 1);
+                v.push(Block { s, len, m, perms, chunkings, count: perms * chunkings * CAPS.len() as u64 });
+            }
+        }
+        v.sort_by_key(|b| (b.count, b.s, b.len));
+        v
+    }
+
+    pub fn recv_exh_total(thorough: bool) -> u64 {
+        blocks().iter().filter(|b| thorough || b.count <= RECV_QUICK_BLOCK_LIMIT).map(|b| b.count).sum()
+    }
+
+    fn nth_perm(n: usize, mut k: u64) -> Vec<usize> {
+        let mut items: Vec<usize> = (0..n).collect();
+        let mut out = Vec::with_capacity(n);
+        for i in (1..=n).rev() {
+            let f = fact(i - 1);
+            let d = (k / f) as usize;
+            k %= f;
+            out.push(items.remove(d.min(items.len() - 1)));
+        }
+        out
+    }
+
+    thread_local! {
+        static BLOCKS: Vec<Block> = blocks();
+    }
+
+    pub fn recv_exhaustive(env: &Env, src: &mut Src<'_>) -> CaseResult {
+        let i = u64::from(src.raw()) | (u64::from(src.raw()) << 32);
+        let (b, mut rest) = BLOCKS.with(|bl| {
+            let mut rest = i;
+            for b in bl {
+                if rest < b.count {
+                    return (*b, rest);
+                }
+                rest -= b.count;
+            }
+            panic!("index {i} outside the enumerated space");
+        });
+        let cap = CAPS[(rest % CAPS.len() as u64) as usize];
+        rest /= CAPS.len() as u64;
+        let mask = rest % b.chunkings;
+        let perm_idx = rest / b.chunkings;
+        let requests = nth_perm(b.m + 1, perm_idx);
+        // chunking: bit k of mask set = cut after byte k
+        let mut chunks = vec![];
+        let mut cur = 0;
+        for k in 0..b.len {
+            cur += 1;
+            if k + 1 == b.len || (mask >> k) & 1 == 1 {
+                chunks.push(cur);
+                cur = 0;
+            }
+        }
+        // stream bytes: all different; derived dimensions (not enumerated): which message is
+        // poisoned (if any) and the order in which woken requests run
+        let h = digest(&(i, "recv-exh"));
+        let mut stream: Vec<u8> = (0..b.len).map(|k| (k as u8).wrapping_mul(19).wrapping_add(1)).collect();
+        let poison = (h % (b.m as u64 + 2)) as usize; // >= m: none
+        if poison < b.m {
+            stream[poison * b.s] = POISON;
+        }
+        let eager = (h >> 8) & 1 == 1;
+        let highest_first = (h >> 9) & 1 == 1;
+        let cfg = RCfg { s: b.s, cap, stream, chunks, requests };
+        let n_chunks = cfg.chunks.len();
+        // requests are first polled in the order of `requests`; woken requests run either
+        // immediately (eager) or after all first polls
+        let mut first_polls: VecDeque<usize> = (0..cfg.requests.len()).collect();
+        let mut polled = vec![false; cfg.requests.len()];
+        let out = run_once_sized(env, &cfg, n_chunks + 1, &mut |v: &RView<'_>| {
+            let woken: Vec<usize> = v.runnable.iter().copied().filter(|t| polled[*t]).collect();
+            if !woken.is_empty() && (eager || first_polls.is_empty()) {
+                return Act::Poll(if highest_first { *woken.last().unwrap() } else { woken[0] });
+            }
+            while let Some(t) = first_polls.pop_front() {
+                if v.alive.contains(&t) {
+                    polled[t] = true;
+                    return Act::Poll(t);
+                }
+            }
+            Act::Poll(v.runnable[0])
+        })?;
+        let nontrivial = b.m >= 2 && out.ahead > 0;
+        let sample = json!({"case": cfg.json(), "poisoned_message": if poison < b.m { json!(poison) } else { Value::Null }, "eager": eager});
+        let mut ok = CaseOk::new(nontrivial, &(b.s, b.len, cap, mask, perm_idx), sample);
+        let mut l = |c: bool, s: &str| {
+            if c {
+                ok.labels.push(s.to_string());
+            }
+        };
+        l(out.ahead > 0, "request_ahead_of_turn");
+        l(out.beyond_capacity > 0, "request_beyond_capacity");
+        l(out.deser_err > 0, "deserialize_error");
+        l(out.deser_err_index_plus_one > 0, "observation:deserialize_error_names_index_plus_one");
+        l(out.deser_err_index_exact > 0, "observation:deserialize_error_names_exact_index");
+        l(cfg.chunks.iter().any(|c| *c % b.s != 0), "chunk_splits_message");
+        l(b.len % b.s != 0, "trailing_partial_message");
+        l(b.m == 0, "no_complete_message");
+        Ok(ok)
+    }
+
+    // -------------------------- generated arrival and request schedules ---------------------
+
+    pub fn recv_random(env: &Env, src: &mut Src<'_>) -> CaseResult {
+        let s = src.urange(1, 8);
+        let m = src.pick(&[0usize, 1, 2, 3, 4, 5, 6, 6, 8, 11, 16, 24]);
+        let tail = if src.chance(1, 3) { src.idx(s) } else { 0 };
+        let len = m * s + tail;
+        let cap = src.pick(&[2usize, 2, 3, 3, 4, 5, 8]);
+        let mut stream = src.bytes(len);
+        for b in &mut stream {
+            if *b == POISON {
+                *b = 0;
+            }
+        }
+        let n_poison = if m > 0 { src.pick(&[0usize, 0, 1, 2]) } else { 0 };
+        for _ in 0..n_poison {
+            let p = src.idx(m);
+            stream[p * s] = POISON;
+        }
+        // chunking
+        let mut chunks = vec![];
+        let mut left = len;
+        let style = src.below(5);
+        while left > 0 {
+            let c = match style {
+                0 => 1,
+                1 => s,
+                2 => left,
+                3 => src.pick(&[s.saturating_sub(1).max(1), s + 1, 2 * s + 1, 1]),
+                _ => src.urange(0, (3 * s).min(left)),
+            }
+            .min(left);
+            chunks.push(c);
+            left -= c;
+        }
+        if src.chance(1, 6) {
+            let at = src.idx(chunks.len() + 1);
+            chunks.insert(at, 0);
+        }
+        // requests: all of 0..=m, first-polled in a generated order (biased to "far ahead first")
+        let mut requests: Vec<usize> = (0..=m).collect();
+        match src.below(4) {
+            0 => {}
+            1 => requests.reverse(),
+            _ => {
+                let p = src.perm(m + 1);
+                requests = p;
+            }
+        }
+        let cfg = RCfg { s, cap, stream, chunks, requests };
+        let n_chunks = cfg.chunks.len();
+        let prefed = match src.below(4) {
+            0 => 0,
+            1 => n_chunks + 1,
+            _ => src.idx(n_chunks + 1),
+        };
+        let spurious_den = src.pick(&[0u64, 0, 12, 5]);
+        // feeder speed: probability that the next action is a chunk arrival
+        let feed_num = src.pick(&[1u64, 1, 3, 6]);
+        let lazy_first = src.bool();
+        let mut first_polls: Vec<usize> = (0..cfg.requests.len()).rev().collect();
+        let out = run_once_sized(env, &cfg, prefed, &mut |v: &RView<'_>| {
+            if v.feeder_can_act && (v.runnable.is_empty() || src.chance(feed_num, 8)) {
+                return Act::Feed;
+            }
+            if lazy_first {
+                // register every request in the generated order before anything else runs
+                while let Some(t) = first_polls.pop() {
+                    if v.alive.contains(&t) {
+                        return Act::Poll(t);
+                    }
+                }
+            }
+            if spurious_den > 0 && src.chance(1, spurious_den) {
+                return Act::Poll(v.alive[src.idx(v.alive.len())]);
+            }
+            Act::Poll(v.runnable[src.idx(v.runnable.len())])
+        })?;
+        let nontrivial = m >= 2 && out.ahead > 0;
+        let sample = json!({"case": cfg.json(), "prefed_chunks": prefed, "schedule": out.trace});
+        let mut ok = CaseOk::new(nontrivial, &(s, cap, &cfg.stream, &cfg.chunks, &cfg.requests, &out.trace), sample);
+        let mut l = |c: bool, s: &str| {
+            if c {
+                ok.labels.push(s.to_string());
+            }
+        };
+        l(out.ahead > 0, "request_ahead_of_turn");
+        l(out.beyond_capacity > 0, "request_beyond_capacity");
+        l(out.waited_for_data > 0, "request_before_data");
+        l(out.stream_pending > 0, "stream_returned_pending");
+        l(out.deser_err > 0, "deserialize_error");
+        l(out.deser_err_index_plus_one > 0, "observation:deserialize_error_names_index_plus_one");
+        l(out.deser_err_index_exact > 0, "observation:deserialize_error_names_exact_index");
+        l(out.spurious > 0, "spurious_polls");
+        l(cfg.chunks.iter().any(|c| *c % s != 0), "chunk_splits_message");
+        l(cfg.chunks.iter().any(|c| *c == 0), "empty_chunk");
+        l(tail > 0, "trailing_partial_message");
+        l(m > 6, "more_than_6_messages");
+        l(m == 0, "no_complete_message");
+        Ok(ok)
+    }
+}
+
+// ==========================================================================================
+// E2: thread-level interleavings under shuttle (`--features shuttle`)
+// ==========================================================================================
+
+#[cfg(feature = "shuttle")]
+mod shuttle_subs {
+    use std::sync::Arc as StdArc;
+
+    use futures::Stream;
+    use shuttle::{
+        Config, FailurePersistence, MaxSteps, Runner,
+        scheduler::{PctScheduler, RandomScheduler},
+    };
+
+    use super::*;
+    use crate::helpers::buffers::{OrderingSender, UnorderedReceiver, UnorderedReceiverError};
+
+    /// Run `iters` schedules of `f` under a seeded scheduler. An oracle failure inside `f` is a
+    /// panic whose message starts with `C14|<signature>|`.
+    fn explore(env: &Env, kind: u64, seed: u64, iters: usize, case: &Value, f: impl Fn() + Send + Sync + 'static) -> Result<(), CaseErr> {
+        let mut cfg = Config::new();
+        cfg.failure_persistence = FailurePersistence::None;
+        cfg.max_steps = MaxSteps::FailAfter(500_000);
+        cfg.silence_warnings = true;
+        let r = catch(move || match kind {
+            0 => Runner::new(RandomScheduler::new_from_seed(seed, iters), cfg).run(f),
+            k => Runner::new(PctScheduler::new_from_seed(seed, (k + 1) as usize, iters), cfg).run(f),
+        });
+        match r {
+            Ok(_) => Ok(()),
+            Err((loc, msg)) => {
+                let (sig, text) = if let Some(rest) = msg.strip_prefix("C14|") {
+                    let mut it = rest.splitn(2, '|');
+                    (it.next().unwrap_or("?").to_string(), it.next().unwrap_or("").to_string())
+                } else if msg.starts_with("deadlock!") {
+                    ("shuttle:deadlock".to_string(), format!("shuttle found a schedule where no thread can run: {msg}"))
+                } else if msg.starts_with("exceeded max_steps") {
+                    ("shuttle:max-steps".to_string(), msg.clone())
+                } else {
+                    (format!("panic:{}", loc_file(&loc)), format!("panic at {loc}: {msg}"))
+                };
+                let mut c = case.clone();
+                c["scheduler"] = json!({"kind": if kind == 0 { "random".to_string() } else { format!("pct depth {}", kind + 1) }, "seed": seed, "iterations": iters});
+                known_or_violation(env, &sig, text, c)
+            }
+        }
+    }
+
+    fn sender_body<N: ArrayLength>(w: usize, cap_units: usize, read_units: usize, tasks: &[Vec<usize>], n_msgs: usize, salt: u8) {
+        let nz = |v: usize| NonZeroUsize::new(v).unwrap();
+        let msg = move |i: usize| -> Vec<u8> { (0..w).map(|k| (i as u8).wrapping_mul(31).wrapping_add((k as u8).wrapping_mul(7)).wrapping_add(salt)).collect() };
+        let sender = StdArc::new(OrderingSender::new(nz(cap_units * w), nz(w), nz(read_units * w)));
+        let mut handles = vec![];
+        for idxs in tasks {
+            let sender = StdArc::clone(&sender);
+            let idxs = idxs.clone();
+            handles.push(shuttle::thread::spawn(move || {
+                for i in idxs {
+                    shuttle::future::block_on(sender.send::<Bytes<N>, Bytes<N>>(i, Bytes::<N>::from_slice(&msg(i))));
+                }
+            }));
+        }
+        {
+            let sender = StdArc::clone(&sender);
+            handles.push(shuttle::thread::spawn(move || {
+                shuttle::future::block_on(sender.close(n_msgs));
+            }));
+        }
+        let reader = {
+            let sender = StdArc::clone(&sender);
+            shuttle::thread::spawn(move || {
+                let mut chunks: Vec<Vec<u8>> = vec![];
+                while let Some(c) = shuttle::future::block_on(std::future::poll_fn(|cx| sender.take_next(cx))) {
+                    chunks.push(c);
+                }
+                chunks
+            })
+        };
+        for h in handles {
+            h.join().unwrap();
+        }
+        let chunks = reader.join().unwrap();
+        let expected: Vec<u8> = (0..n_msgs).flat_map(msg).collect();
+        let got: Vec<u8> = chunks.iter().flatten().copied().collect();
+        if got != expected {
+            panic!("C14|sender:bytes|the stream delivered {got:?}, the concatenation in index order is {expected:?} (chunks {:?})", chunks.iter().map(Vec::len).collect::<Vec<_>>());
+        }
+        let read = read_units * w;
+        for (k, c) in chunks.iter().enumerate() {
+            if c.is_empty() || c.len() > read || c.len() % w != 0 {
+                panic!("C14|sender:chunk-len|chunk {k} has {} bytes (read size {read}, write size {w})", c.len());
+            }
+        }
+        // a chunk shorter than the read size exists only after the close, i.e. after the last message:
+        // everything before it must be full chunks
+        if let Some(k) = chunks.iter().position(|c| c.len() < read) {
+            let before: usize = chunks[..k].iter().map(Vec::len).sum();
+            if before % read != 0 {
+                panic!("C14|sender:chunk-len|short chunk {k} after {before} bytes that are not a multiple of the read size {read}");
+            }
+        }
+    }
+
+    pub fn sender_shuttle(env: &Env, src: &mut Src<'_>) -> CaseResult {
+        let w = src.pick(&[1usize, 2, 3, 5, 8]);
+        let cap_units = src.pick(&[1usize, 1, 2, 2, 3, 4, 6]);
+        let read_units = src.urange(1, cap_units);
+        let n_msgs = src.pick(&[1usize, 2, 3, 4, 5, 6, 6, 8]);
+        // mostly several writer threads (the index hand-over between threads is the point here)
+        let k = if src.chance(1, 8) { 1 } else { src.urange(n_msgs.min(2), n_msgs.min(6)) };
+        let mut tasks: Vec<Vec<usize>> = vec![vec![]; k];
+        let perm = src.perm(n_msgs);
+        for (pos, idx) in perm.iter().enumerate() {
+            let t = if pos < k { pos } else { src.idx(k) };
+            tasks[t].push(*idx);
+        }
+        for t in &mut tasks {
+            t.sort_unstable();
+        }
+        let salt = src.below(256) as u8;
+        let kind = src.below(4); // random, pct depth 2..4
+        let seed = src.seed();
+        let iters = if env.thorough() { 200 } else { 40 };
+        let case = json!({"write_size": w, "capacity": cap_units * w, "read_size": read_units * w, "messages": n_msgs, "writer_threads": tasks});
+        let t2 = tasks.clone();
+        explore(env, kind, seed, iters, &case, move || by_size!(w, sender_body(w, cap_units, read_units, &t2, n_msgs, salt)))?;
+        Ok(CaseOk::new(n_msgs >= 2 && k >= 2, &(w, cap_units, read_units, &tasks, kind, seed), case)
+            .label(if kind == 0 { "random_scheduler".to_string() } else { format!("pct_depth_{}", kind + 1) })
+            .label(format!("writer_threads:{k}"))
+            .label(if n_msgs > cap_units { "stream_longer_than_capacity" } else { "fits_capacity" }))
+    }
+
+    // ---------------------------------- receiver ------------------------------------------
+
+    #[derive(Default)]
+    struct FedInner {
+        q: VecDeque<Vec<u8>>,
+        closed: bool,
+        waker: Option<Waker>,
+    }
+
+    /// chunk stream fed by a shuttle thread (shuttle mutex: its lock is a scheduling point)
+    #[derive(Clone)]
+    struct Fed(crate::sync::Arc<crate::sync::Mutex<FedInner>>);
+
+    impl Stream for Fed {
+        type Item = Vec<u8>;
+        fn poll_next(self: Pin<&mut Self>, cx: &mut Context<'_>) -> Poll<Option<Vec<u8>>> {
+            let mut g = self.0.lock().unwrap();
+            if let Some(c) = g.q.pop_front() {
+                Poll::Ready(Some(c))
+            } else if g.closed {
+                Poll::Ready(None)
+            } else {
+                g.waker = Some(cx.waker().clone());
+                Poll::Pending
+            }
+        }
+    }
+
+    fn recv_body<N: ArrayLength>(s: usize, cap: usize, stream: &[u8], chunks: &[usize], requests: &[usize], prefed: usize) {
+        let fed = Fed(crate::sync::Arc::new(crate::sync::Mutex::new(FedInner::default())));
+        let mut parts: VecDeque<Vec<u8>> = VecDeque::new();
+        let mut off = 0;
+        for l in chunks {
+            parts.push_back(stream[off..off + l].to_vec());
+            off += l;
+        }
+        for _ in 0..prefed.min(parts.len()) {
+            let c = parts.pop_front().unwrap();
+            fed.0.lock().unwrap().q.push_back(c);
+        }
+        let recv = UnorderedReceiver::new(Box::pin(fed.clone()), NonZeroUsize::new(cap).unwrap());
+        let feeder = {
+            let fed = fed.clone();
+            shuttle::thread::spawn(move || {
+                for c in parts {
+                    let w = {
+                        let mut g = fed.0.lock().unwrap();
+                        g.q.push_back(c);
+                        g.waker.take()
+                    };
+                    if let Some(w) = w {
+                        w.wake();
+                    }
+                }
+                let w = {
+                    let mut g = fed.0.lock().unwrap();
+                    g.closed = true;
+                    g.waker.take()
+                };
+                if let Some(w) = w {
+                    w.wake();
+                }
+            })
+        };
+        let m = stream.len() / s;
+        let mut handles = vec![];
+        for &j in requests {
+            let recv = recv.clone();
+            let want: Option<Vec<u8>> = (j < m).then(|| stream[j * s..(j + 1) * s].to_vec());
+            handles.push(shuttle::thread::spawn(move || {
+                let r = shuttle::future::block_on(recv.recv::<Bytes<N>, usize>(j));
+                match (want, r) {
+                    (Some(b), Ok(v)) if b[0] != POISON && v.0.as_slice() == b.as_slice() => {}
+                    (Some(b), Err(UnorderedReceiverError::DeserializeFailed(_))) if b[0] == POISON => {}
+                    (None, Err(UnorderedReceiverError::EndOfStream(_))) => {}
+                    (want, r) => panic!("C14|recv:wrong-result|recv({j}) returned {r:?}; the stream has {want:?} at this index (None = end of stream)"),
+                }
+            }));
+        }
+        feeder.join().unwrap();
+        for h in handles {
+            h.join().unwrap();
+        }
+    }
+
+    pub fn recv_shuttle(env: &Env, src: &mut Src<'_>) -> CaseResult {
+        let s = src.pick(&[1usize, 2, 3, 5, 8]);
+        let m = src.pick(&[1usize, 2, 3, 4, 5, 6, 6, 9]);
+        let tail = if src.chance(1, 3) { src.idx(s) } else { 0 };
+        let len = m * s + tail;
+        let cap = src.pick(&[2usize, 2, 3, 4]);
+        let mut stream = src.bytes(len);
+        for b in &mut stream {
+            if *b == POISON {
+                *b = 0;
+            }
+        }
+        if src.chance(1, 3) {
+            let p = src.idx(m);
+            stream[p * s] = POISON;
+        }
+        let mut chunks = vec![];
+        let mut left = len;
+        let style = src.below(4);
+        while left > 0 {
+            let c = match style {
+                0 => 1,
+                1 => s,
+                2 => left,
+                _ => src.urange(1, (2 * s + 1).min(left)),
+            }
+            .min(left);
+            chunks.push(c);
+            left -= c;
+        }
+        let mut requests: Vec<usize> = (0..=m).collect();
+        match src.below(3) {
+            0 => {}
+            1 => requests.reverse(),
+            _ => requests = src.perm(m + 1),
+        }
+        let prefed = src.idx(chunks.len() + 1);
+        let kind = src.below(4);
+        let seed = src.seed();
+        let iters = if env.thorough() { 200 } else { 40 };
+        let case = json!({"message_size": s, "capacity": cap, "stream": stream, "chunks": chunks, "request_spawn_order": requests, "prefed_chunks": prefed});
+        let (st, ch, rq) = (stream.clone(), chunks.clone(), requests.clone());
+        explore(env, kind, seed, iters, &case, move || by_size!(s, recv_body(s, cap, &st, &ch, &rq, prefed)))?;
+        Ok(CaseOk::new(m >= 2, &(s, cap, &stream, &chunks, &requests, kind, seed), case)
+            .label(if kind == 0 { "random_scheduler".to_string() } else { format!("pct_depth_{}", kind + 1) })
+            .label(if m > cap { "requests_beyond_capacity" } else { "within_capacity" }))
+    }
+}
+
+// ==========================================================================================
+// registry
+// ==========================================================================================
+
+pub fn subs(env: &Env) -> Vec<Sub> {
+    let mut v: Vec<Sub> = vec![];
+    // (a) does not involve crate::sync: it runs in the default build only
+    #[cfg(not(feature = "shuttle"))]
+    v.extend([
+        Sub::exhaustive(
+            "circ_exhaustive",
+            circ_exh_total(CIRC_DEPTH_QUICK),
+            circ_exh_total(CIRC_DEPTH_THOROUGH),
+            circ_exhaustive,
+            "CircularBuf: every sequence over {write, take, close} of depth 11 (thorough 14) for all 27 triples (write 1..3 bytes, read 1..3 writes, capacity read..4 writes), then close and drain, against a VecDeque<u8>; len/can_read/can_write/is_closed/capacity compared after every step; operations whose documented precondition fails in the reference state are skipped; non-trivial = wrapped around (more bytes written than the capacity) and at least one take returned data; distinct = distinct effective sequences",
+        ),
+        Sub::random(
+            "circ_random",
+            400,
+            600_000,
+            10_000_000,
+            circ_random,
+            "CircularBuf: up to 120 generated operations (single ops and fill/drain bursts, optional close) for write size in {1,2,3,4,5,7,8,16,32}, read 1..6 writes, capacity read..read+11 writes (incl. capacities that are not a multiple of the read size); same oracle; non-trivial as above",
+        ),
+    ]);
+    #[cfg(not(feature = "shuttle"))]
+    {
+        v.push(Sub::exhaustive(
+            "sender_all_schedules",
+            sender_det::sender_dfs_total(false),
+            sender_det::sender_dfs_total(true),
+            sender_det::sender_dfs,
+            "OrderingSender: n single-message writers (n = 0..4, thorough 0..5; for n >= 4 only read size 1 and read size = capacity, for n = 5 capacity <= 2) + closer + stream reader, 2-byte messages, capacity 1..3 messages, read size 1..capacity; a case pins the first 3 polls (all combinations; combinations that do not occur are counted as trivial, label prefix_not_applicable) and explores ALL poll schedules below them by stateless DFS (budget 2e6 / 6e7 schedules per case, label dfs_truncated if hit; labels schedules_log2:k give the sizes); every poll is compared with a poll-level reference model (turn order, capacity, chunk size = read size while open, aligned remainder <= read size after close, bytes = concatenation in index order), the wake-up invariant (a task that can make progress is runnable) is checked after every poll and a state with no runnable task is a lost wake-up; non-trivial = at least one writer",
+        ));
+        v.push(
+            Sub::random(
+                "sender_schedules",
+                700,
+                1_500_000,
+                20_000_000,
+                sender_det::sender_random,
+                "OrderingSender: 0..12 messages of 1,2,3,5,8 bytes spread over <= 6 writer tasks (ascending inside a task) + closer + reader, capacity 1..6 messages, read 1..capacity messages, generated poll schedule (uniform / reader-starved / everyone-arrives-in-descending-order) with optional spurious polls; same oracle; non-trivial = >= 2 messages and at least one writer polled before its turn",
+            )
+            .shrink_iters(2000),
+        );
+        v.push(Sub::exhaustive(
+            "recv_chunkings_x_orders",
+            recv_det::recv_exh_total(false),
+            recv_det::recv_exh_total(true),
+            recv_det::recv_exhaustive,
+            "UnorderedReceiver: every stream length 1..12 x message size 1..8 (<= 6 complete messages) x every chunking (2^(len-1)) x every order of first polls of the requests 0..=m (request m must see end of stream) x capacity {2,3,4}; the quick tier leaves out the one block above 2.5e6 cases (12 bytes of 2-byte messages: 3.1e7 cases), the thorough tier enumerates everything; derived per case (not enumerated): which message is poisoned (deserialisation error) and whether woken requests run eagerly; oracle: recv(i) = i-th message / error on exactly the poisoned index / end of stream on index m, every poll Ready/Pending as the reference predicts, wake-up invariant, no lost wake-up; non-trivial = >= 2 messages and a request polled before its turn",
+        ));
+        v.push(
+            Sub::random(
+                "recv_schedules",
+                500,
+                1_500_000,
+                20_000_000,
+                recv_det::recv_random,
+                "UnorderedReceiver: 0..24 messages of 1..8 bytes (+ optional partial tail, 0..2 poisoned), capacity 2..8, generated chunking (byte-wise, message-wise, single chunk, off-by-one sizes, random incl. empty chunks), chunks arriving between polls at a generated rate, requests first polled in generated order (in order / reversed / permuted), optional spurious polls; same oracle; non-trivial as above",
+            )
+            .shrink_iters(2000),
+        );
+    }
+    #[cfg(feature = "shuttle")]
+    {
+        v.push(
+            Sub::random(
+                "sender_threads_shuttle",
+                200,
+                12_000,
+                100_000,
+                shuttle_subs::sender_shuttle,
+                "OrderingSender under shuttle (crate::sync = shuttle): 1..8 messages of 1,2,3,5,8 bytes over <= 6 writer threads + closer thread + reader thread, capacity 1..6 messages, read 1..capacity; per case 40 (thorough 200) schedules from a seeded random or PCT (depth 2..4) scheduler; oracle: stream bytes = concatenation in index order, chunks non-empty, aligned, <= read size, full-size before the first short one; shuttle reports a deadlock (lost wake-up) exactly; non-trivial = >= 2 messages on >= 2 writer threads",
+            )
+            .shrink_iters(60),
+        );
+        v.push(
+            Sub::random(
+                "recv_threads_shuttle",
+                200,
+                12_000,
+                100_000,
+                shuttle_subs::recv_shuttle,
+                "UnorderedReceiver under shuttle: 1..9 messages of 1,2,3,5,8 bytes, capacity 2..4, one thread per request 0..=m spawned in generated order, chunks delivered by a feeder thread; 40 (200) seeded random / PCT schedules per case; oracle: recv(i) = i-th message / deserialisation error on the poisoned index / end of stream on index m, no deadlock; non-trivial = >= 2 messages",
+            )
+            .shrink_iters(60),
+        );
+    }
+    let _ = env;
+    v
+}
+
+#[test]
+fn run() {
+    let env = Env::from_env();
+    let s = subs(&env);
+    crate::ipa_verif::common::run_main(env, LEVEL, s)
+}
